@@ -6,9 +6,12 @@
 package board
 
 import (
+	"bufio"
 	"bytes"
 	"fmt"
+	"io"
 	"os"
+	"os/exec"
 	"path/filepath"
 	"runtime/debug"
 	"sort"
@@ -55,6 +58,137 @@ type task struct {
 	// that a batch is contiguous)
 	msgCall []int64
 	msgRet  []int64
+	child   *childProc // non-nil: this writer is a separate OS process
+	opIdx   int
+}
+
+// childProc is a writer running in another OS process (the same test binary in
+// child mode): it opens its own FileStorage on the same data and lock files and
+// performs one Send per command line. It exercises the lock between processes.
+type childProc struct {
+	cmd *exec.Cmd
+	in  io.WriteCloser
+	out *bufio.Reader
+}
+
+func startChild(data, lock string) (*childProc, error) {
+	exe, err := os.Executable()
+	if err != nil {
+		return nil, err
+	}
+	cmd := exec.Command(exe, "-test.run", "^TestBoardChild$", "-test.timeout", "0")
+	cmd.Env = append(os.Environ(), "DST_BOARD_CHILD="+data+"|"+lock, "DST_SCENARIO=")
+	in, err := cmd.StdinPipe()
+	if err != nil {
+		return nil, err
+	}
+	outp, err := cmd.StdoutPipe()
+	if err != nil {
+		return nil, err
+	}
+	if err := cmd.Start(); err != nil {
+		return nil, err
+	}
+	c := &childProc{cmd: cmd, in: in, out: bufio.NewReader(outp)}
+	if line, err := c.out.ReadString('\n'); err != nil || strings.TrimSpace(line) != "ready" {
+		c.stop()
+		return nil, fmt.Errorf("child did not start: %q %v", line, err)
+	}
+	return c, nil
+}
+
+func (c *childProc) stop() {
+	if c == nil {
+		return
+	}
+	_, _ = io.WriteString(c.in, "quit\n")
+	_ = c.in.Close()
+	done := make(chan struct{})
+	go func() { _ = c.cmd.Wait(); close(done) }()
+	select {
+	case <-done:
+	case <-time.After(5 * time.Second):
+		_ = c.cmd.Process.Kill()
+	}
+}
+
+// send lets the child append the batch; it returns the offsets the child was told.
+func (c *childProc) send(event string, tags []string, sizes []int) ([]uint64, error) {
+	var sb strings.Builder
+	fmt.Fprintf(&sb, "send %s", event)
+	for i := range tags {
+		fmt.Fprintf(&sb, " %s:%d", tags[i], sizes[i])
+	}
+	sb.WriteString("\n")
+	if _, err := io.WriteString(c.in, sb.String()); err != nil {
+		return nil, err
+	}
+	type rep struct {
+		line string
+		err  error
+	}
+	ch := make(chan rep, 1)
+	go func() { l, e := c.out.ReadString('\n'); ch <- rep{l, e} }()
+	select {
+	case r := <-ch:
+		if r.err != nil {
+			return nil, r.err
+		}
+		f := strings.Fields(r.line)
+		if len(f) == 0 || f[0] != "ok" {
+			return nil, fmt.Errorf("child: %s", strings.TrimSpace(r.line))
+		}
+		var offs []uint64
+		for _, x := range f[1:] {
+			v, _ := strconv.ParseUint(x, 10, 64)
+			offs = append(offs, v)
+		}
+		return offs, nil
+	case <-time.After(30 * time.Second):
+		return nil, fmt.Errorf("child did not answer within 30 s")
+	}
+}
+
+// ChildMain is the body of the child process.
+func ChildMain(spec string) {
+	parts := strings.SplitN(spec, "|", 2)
+	h, err := file_storage.NewFileStorage(parts[0], parts[1])
+	if err != nil {
+		fmt.Println("error", err)
+		return
+	}
+	fmt.Println("ready")
+	rd := bufio.NewReaderSize(os.Stdin, 1<<16)
+	for {
+		line, err := rd.ReadString('\n')
+		if err != nil {
+			return
+		}
+		f := strings.Fields(line)
+		if len(f) == 0 {
+			continue
+		}
+		if f[0] == "quit" {
+			return
+		}
+		if f[0] == "send" && len(f) >= 3 {
+			var msgs []storage.Message
+			for _, spec := range f[2:] {
+				ts := strings.SplitN(spec, ":", 2)
+				sz, _ := strconv.Atoi(ts[1])
+				msgs = append(msgs, storage.Message{DkgRoundID: "r", Event: f[1], Data: payload(ts[0], sz), SenderAddr: "child"})
+			}
+			if err := h.Send(msgs...); err != nil {
+				fmt.Println("error", strings.ReplaceAll(err.Error(), "\n", " "))
+				continue
+			}
+			out := "ok"
+			for _, m := range msgs {
+				out += " " + strconv.FormatUint(m.Offset, 10)
+			}
+			fmt.Println(out)
+		}
+	}
 }
 
 type histOp struct {
@@ -146,6 +280,11 @@ func tagOf(m storage.Message) string {
 	return string(m.Data[len(tagPrefix):i])
 }
 
+// nextIsSend tells whether the operation the task is about to start is a send.
+func (t *task) nextIsSend() bool {
+	return t.opIdx < len(t.ops) && t.ops[t.opIdx].kind == opSend
+}
+
 func (w *world) runTask(t *task) {
 	defer func() {
 		if r := recover(); r != nil {
@@ -160,6 +299,7 @@ func (w *world) runTask(t *task) {
 	w.mu.Unlock()
 	w.yield("task.start")
 	for oi, o := range t.ops {
+		t.opIdx = oi
 		w.yield("op.start")
 		call := w.tick()
 		switch o.kind {
@@ -169,8 +309,23 @@ func (w *world) runTask(t *task) {
 				msgs[i] = storage.Message{DkgRoundID: "r", Event: fmt.Sprintf("w%d-%d", t.id, oi), Data: payload(o.tags[i], sz), SenderAddr: fmt.Sprintf("w%d", t.id)}
 			}
 			t.msgCall, t.msgRet = nil, nil
-			err := t.h.Send(msgs...)
-			out := logOutput{Err: err != nil}
+			var err error
+			out := logOutput{}
+			if t.child != nil {
+				// the whole batch runs in the other process; the scheduler granted this step only
+				// while the lock was free, and nobody else runs until the child has answered
+				var offs []uint64
+				offs, err = t.child.send(msgs[0].Event, o.tags, o.sizes)
+				for i := range offs {
+					if i < len(msgs) {
+						msgs[i].Offset = offs[i]
+					}
+				}
+				w.stats.Fault("send-by-child-process")
+			} else {
+				err = t.h.Send(msgs...)
+			}
+			out.Err = err != nil
 			if err == nil {
 				for _, m := range msgs {
 					out.Offsets = append(out.Offsets, m.Offset)
@@ -414,6 +569,10 @@ func (w *world) run(tier string) (bool, interface{}) {
 	nw := 1 + tp.Choose(maxW, "writers")
 	nops := 4 + tp.Choose(maxOps-3, "ops")
 	big := tp.Bool(1, 2, "bigMessages")
+	nChildren := 0
+	if tp.Bool(1, 3, "childWriters") {
+		nChildren = 1 + tp.Choose(2, "children")
+	}
 	tagN := 0
 	for i := 0; i < nw; i++ {
 		h, err := file_storage.NewFileStorage(w.data, w.lock)
@@ -421,7 +580,17 @@ func (w *world) run(tier string) (bool, interface{}) {
 			panic(err)
 		}
 		defer h.Close()
-		w.tasks = append(w.tasks, &task{id: i, h: h, grant: make(chan struct{})})
+		tk := &task{id: i, h: h, grant: make(chan struct{})}
+		if i > 0 && nChildren > 0 {
+			if c, err := startChild(w.data, w.lock); err == nil {
+				tk.child = c
+				defer c.stop()
+				nChildren--
+			} else {
+				w.stats.Probe("child-start-failed")
+			}
+		}
+		w.tasks = append(w.tasks, tk)
 	}
 	for k := 0; k < nops; k++ {
 		t := w.tasks[tp.Choose(nw, "whichTask")]
@@ -456,7 +625,7 @@ func (w *world) run(tier string) (bool, interface{}) {
 			if t.done || t.parked == "" {
 				continue
 			}
-			if t.parked == "send.beforeLock" {
+			if t.parked == "send.beforeLock" || (t.child != nil && t.parked == "op.start" && t.nextIsSend()) {
 				// a task about to take the lock is only runnable when the lock
 				// is free, so a parked lock holder cannot deadlock the simulator
 				if err := probe.TryLock(); err != nil {
